@@ -220,3 +220,150 @@ func applyTable(c *Ctx, r *R) {
 		}})
 	_ = strings.HasPrefix
 }
+
+func init() {
+	reg(&eng.Rule{ID: "C09.validate-table", Prop: "C09", Floor: 2,
+		Doc: "authorizations/v01.Validate and v02.Validate accept a decoded statement exactly when: it has a non-nil first subject; the subject's tree digest (v02: the tree digest, or — only for tag references — the commit digest when no tree digest is present) equals the expected target; a predicate is present; and the predicate's target, from and reference fields each equal the corresponding parameter. Every other truth assignment of these comparisons → ErrInvalidAuthorization. Decided as a decision table over the CFG after the payload was parsed.",
+		Run: validateTable})
+}
+
+func validateTable(c *Ctx, r *R) {
+	type spec struct {
+		fn                    string
+		pTarget, pFrom, pRef  string
+		kTarget, kFrom, kRef  string
+		v02                   bool
+	}
+	for _, sp := range []spec{
+		{"internal/attestations/authorizations/v01.Validate", "targetTreeID", "fromRevisionID", "targetRef", "targetTreeID", "fromRevisionID", "targetRef", false},
+		{"internal/attestations/authorizations/v02.Validate", "targetID", "fromID", "targetRef", "targetID", "fromID", "targetRef", true},
+	} {
+		fn := r.Fn(sp.fn)
+		if fn == nil {
+			continue
+		}
+		r.Site(1)
+		short := "v01"
+		if sp.v02 {
+			short = "v02"
+		}
+		// lookupKey: v is (an interface-boxed / comma-ok) map lookup with a constant key
+		lookupKey := func(v ssa.Value) (string, bool) {
+			for _, root := range eng.Roots(v) {
+				var lk *ssa.Lookup
+				switch x := root.(type) {
+				case *ssa.Lookup:
+					lk = x
+				case *ssa.Extract:
+					lk, _ = x.Tuple.(*ssa.Lookup)
+					if x.Index != 0 {
+						lk = nil
+					}
+				}
+				if lk != nil {
+					if s, isC := eng.ConstString(lk.Index); isC {
+						return s, true
+					}
+				}
+			}
+			return "", false
+		}
+		hasKey := func(v ssa.Value) (string, bool) {
+			ex, ok := v.(*ssa.Extract)
+			if !ok || ex.Index != 1 {
+				return "", false
+			}
+			lk, ok := ex.Tuple.(*ssa.Lookup)
+			if !ok || !lk.CommaOk {
+				return "", false
+			}
+			s, isC := eng.ConstString(lk.Index)
+			return s, isC
+		}
+		atoms := func(v ssa.Value) (string, bool, bool) {
+			if op, ok := eng.CmpAtom(v, eng.PLen(eng.PField("Subject", nil)), eng.PInt(0)); ok {
+				switch op {
+				case token.EQL:
+					return "noSubject", true, true
+				case token.NEQ, token.GTR:
+					return "noSubject", false, true
+				}
+			}
+			if bo, ok := v.(*ssa.BinOp); ok && (bo.Op == token.EQL || bo.Op == token.NEQ) {
+				pos := bo.Op == token.NEQ
+				for _, pair := range [][2]ssa.Value{{bo.X, bo.Y}, {bo.Y, bo.X}} {
+					a, b := pair[0], pair[1]
+					if eng.IsNilConst(b) {
+						if n, _, isF := eng.FieldLoad(a); isF && n == "Predicate" {
+							return "predNil", !pos, true
+						}
+						if u, ok := eng.Strip(a).(*ssa.UnOp); ok {
+							if ia, ok := u.X.(*ssa.IndexAddr); ok && eng.PField("Subject", nil)(ia.X) {
+								return "subjNil", !pos, true
+							}
+						}
+					}
+					if k, ok := lookupKey(a); ok {
+						for name, want := range map[string][2]string{
+							"treeNe": {"gitTree", sp.pTarget}, "commitNe": {"gitCommit", sp.pTarget},
+							"pTargetNe": {sp.kTarget, sp.pTarget}, "pFromNe": {sp.kFrom, sp.pFrom}, "pRefNe": {sp.kRef, sp.pRef}} {
+							if k == want[0] && eng.PParam(want[1])(eng.Strip(b)) {
+								return name, pos, true
+							}
+						}
+					}
+				}
+			}
+			if k, ok := hasKey(v); ok {
+				switch k {
+				case "gitTree":
+					return "hasTree", true, true
+				case "gitCommit":
+					return "hasCommit", true, true
+				}
+			}
+			if k, _, ok := eng.RootCall(v); ok && k.Name() == "strings.HasPrefix" && eng.PParam(sp.pRef)(k.Arg(0)) {
+				if s, isC := eng.ConstString(k.Arg(1)); isC && s == "refs/tags/" {
+					return "isTagRef", true, true
+				}
+			}
+			return "", false, false
+		}
+		// start: after json.Unmarshal succeeded
+		um := eng.CallsTo(fn, false, "encoding/json.Unmarshal")
+		if len(um) != 1 {
+			r.Undecided("table:"+short, fn.Pos(), "expected one json.Unmarshal call in %s", sp.fn)
+			continue
+		}
+		ev, _ := um[0].ErrResult()
+		if ev == nil {
+			r.Bad("table:"+short, um[0].Pos(), "the result of parsing the statement is dropped")
+			continue
+		}
+		u := eng.UsesOfErr(ev)
+		if len(u.NilEdges) != 1 {
+			r.Undecided("table:"+short, um[0].Pos(), "cannot locate the success edge of json.Unmarshal")
+			continue
+		}
+		names := []string{"noSubject", "subjNil", "treeNe", "predNil", "pTargetNe", "pFromNe", "pRefNe"}
+		if sp.v02 {
+			names = append(names, "hasTree", "hasCommit", "commitNe", "isTagRef")
+		}
+		v02 := sp.v02
+		runTable(c, r, dtable{key: "table:" + short, fn: fn, start: u.NilEdges[0].To(), what: short + ".Validate", names: names, atoms: atoms, outcome: retLabel,
+			spec: func(a map[string]bool) string {
+				bad := a["noSubject"] || a["subjNil"] || a["predNil"] || a["pTargetNe"] || a["pFromNe"] || a["pRefNe"]
+				if !v02 {
+					bad = bad || a["treeNe"]
+				} else if a["hasTree"] {
+					bad = bad || a["treeNe"]
+				} else {
+					bad = bad || !a["hasCommit"] || a["commitNe"] || !a["isTagRef"]
+				}
+				if bad {
+					return "err:ErrInvalidAuthorization"
+				}
+				return "ok"
+			}})
+	}
+}
